@@ -32,7 +32,8 @@ def generate(rng, tier):
         spec["cases"].append({"obj": rng.randrange(4), "style": rng.choice(["full", "full", "atomic"]), "via_save": via,
                               "via_load": rng.choice(["path", "file", "load_lmpdat"]),
                               "read_script": rng.choice([None, {"chunk": "random", "seed": rng.getrandbits(16)}, {"chunk": "one"}, {"chunk": "prime"}]),
-                              "fault": None, "read_fault": rng.random() if rng.random() < 0.25 else None})
+                              "fault": None, "read_fault": rng.random() if rng.random() < 0.25 else None,
+                              "pathkind": rng.choice(["std", "std", "odd_ext", "pathlib"]), "same_handle": rng.random() < 0.3})
     if rng.random() < 0.25:
         for c in spec["cases"]:
             c["fault"] = rng.choice([{"enospc_after": rng.randint(0, 2500)}, {"eio_after": rng.randint(0, 2500)}, {"crash": "lost"},
@@ -62,11 +63,12 @@ def execute(spec, ctx):
             c09._faulty_save(ctx, fs, pool, o, {"style": case["style"], "via": "path" if case["via_save"] == "path" else "file"}, "case%d" % ci, case["fault"], prefix="c13")
         else:
             restart.restart_lmpdat(ctx, fs, r, m, "case%d" % ci, style=case["style"], via_save=case["via_save"], via_load=case["via_load"],
-                                   prefix="c13", read_script=case.get("read_script"), idempotence=True)
+                                   prefix="c13", read_script=case.get("read_script"), idempotence=True,
+                                   pathkind=case.get("pathkind", "std"), same_handle=case.get("same_handle", False))
         if case.get("read_fault") is not None and not case.get("fault"):
             # injected read error while loading the file just written: the error must surface, or - if the loader got
             # everything it needed before the failing read - the structure returned must still be right
-            path = "/sim/case%d.lmpdat" % ci
+            path = getattr(ctx, "last_restart_path", "/sim/case%d.lmpdat" % ci)
             fired0 = fs.stats.get("eio_read_fired", 0)
             nlines = fs.files[path].count("\n") + 1
             k = 1 + int(case["read_fault"] * (nlines + 1))
